@@ -101,3 +101,67 @@ void h_add_initial (void)
   set_new_add_initial_sit (s);
   if (new_core->n_sits == n) VACUITY_CANARY_N ("already there"); else VACUITY_CANARY_N ("appended");
 }
+
+/* E.set.add_nonstart: set_add_new_nonstart_sit - appends a (situation, parent index) pair to the non-start part unless the pair is there already.
+   Call-site precondition (add_derived_nonstart_sits runs before any initial situation is added): n_all_dists == n_sits.
+   The parent-index array has no entries for the start situations; the code keeps a pointer biased by -n_start_sits (F34: that pointer is
+   formed outside the object when there are start situations; every access through it is inside). */
+#define POS (&set_parent_indexes_os)
+size_t gh_k3; char gh_byte3;        /* ghost byte of the parent-index array before the call */
+void os_expand_three_c (os_t *os, size_t additional_length)
+__CPROVER_requires (os == SOS || os == POS)
+__CPROVER_requires (os == SOS ? (gh_k < TOPLEN (os) ==> gh_byte == os->os_top_object_start[gh_k]) : (gh_k3 < TOPLEN (os) ==> gh_byte3 == os->os_top_object_start[gh_k3]))
+__CPROVER_requires (os != SOS || gh_wi >= TOPLEN (os) / sizeof (struct sit *) || gh_word == ((struct sit **) os->os_top_object_start)[gh_wi])
+__CPROVER_assigns (os->os_current_segment, os->os_top_object_start, os->os_top_object_free, os->os_boundary, gh_newlen)
+__CPROVER_ensures (gh_newlen >= OS_DEFAULT_SEGMENT_LENGTH && gh_newlen <= 2 * CAP + OS_DEFAULT_SEGMENT_LENGTH + NCAP * 16
+                   && gh_newlen >= (size_t) (OFF (__CPROVER_old (os->os_top_object_free)) - OFF (__CPROVER_old (os->os_top_object_start))) + additional_length)
+__CPROVER_ensures (__CPROVER_is_fresh (os->os_current_segment, gh_newlen + HDR))
+__CPROVER_ensures (__CPROVER_pointer_in_range_dfcc (SEGB (os) + PAY, os->os_top_object_start, SEGB (os) + PAY))
+__CPROVER_ensures (__CPROVER_pointer_in_range_dfcc (SEGB (os) + PAY + (OFF (__CPROVER_old (os->os_top_object_free)) - OFF (__CPROVER_old (os->os_top_object_start))), os->os_top_object_free,
+                                                    SEGB (os) + PAY + (OFF (__CPROVER_old (os->os_top_object_free)) - OFF (__CPROVER_old (os->os_top_object_start)))))
+__CPROVER_ensures (__CPROVER_pointer_in_range_dfcc (SEGB (os) + PAY + gh_newlen, os->os_boundary, SEGB (os) + PAY + gh_newlen))
+__CPROVER_ensures (os == SOS ? (gh_k < TOPLEN (os) ==> os->os_top_object_start[gh_k] == gh_byte) : (gh_k3 < TOPLEN (os) ==> os->os_top_object_start[gh_k3] == gh_byte3))
+__CPROVER_ensures (os != SOS || gh_wi >= TOPLEN (os) / sizeof (struct sit *) || ((struct sit **) os->os_top_object_start)[gh_wi] == gh_word)
+;
+#define NNS ((size_t) (new_core->n_sits - new_n_start_sits))        /* number of non-start situations */
+void add_nonstart_c (struct sit *sit, int parent)
+__CPROVER_requires (new_core != NULL && new_n_start_sits >= 0 && new_n_start_sits <= new_core->n_sits && new_core->n_sits < NCAP && new_core->n_all_dists == new_core->n_sits
+                    && n_parent_indexes >= 0 && n_parent_indexes < 1000000)
+__CPROVER_requires (TOPLEN (SOS) == (size_t) new_core->n_sits * sizeof (struct sit *) && (char *) new_sits == SOS->os_top_object_start && new_core->sits == new_sits)
+__CPROVER_requires (TOPLEN (POS) == NNS * sizeof (int) && (NNS == 0 || (char *) (new_core->parent_indexes + new_n_start_sits) == POS->os_top_object_start))
+__CPROVER_requires ((gh_k < TOPLEN (SOS) ==> gh_byte == SOS->os_top_object_start[gh_k]) && (gh_k3 < TOPLEN (POS) ==> gh_byte3 == POS->os_top_object_start[gh_k3]))
+__CPROVER_requires (gh_wi >= TOPLEN (SOS) / sizeof (struct sit *) || gh_word == ((struct sit **) SOS->os_top_object_start)[gh_wi])
+__CPROVER_assigns (new_sits, new_core->sits, new_core->n_sits, new_core->n_all_dists, new_core->parent_indexes, n_parent_indexes, set_sits_os, set_parent_indexes_os, gh_newlen,
+                   __CPROVER_object_from (SOS->os_top_object_free), __CPROVER_object_from (POS->os_top_object_free))
+__CPROVER_ensures (new_core->n_sits == __CPROVER_old (new_core->n_sits) || new_core->n_sits == __CPROVER_old (new_core->n_sits) + 1)
+__CPROVER_ensures (new_core->n_all_dists == new_core->n_sits)
+/* unchanged when the pair is there already */
+__CPROVER_ensures (new_core->n_sits != __CPROVER_old (new_core->n_sits) || (new_sits == __CPROVER_old (new_sits) && TOPLEN (SOS) == (size_t) new_core->n_sits * sizeof (struct sit *) && TOPLEN (POS) == NNS * sizeof (int)))
+/* appended: both arrays grew by one element holding the pair, pointers refreshed (the parent-index pointer biased by the number of start situations) */
+__CPROVER_ensures (new_core->n_sits == __CPROVER_old (new_core->n_sits)
+                   || ((char *) new_sits == SOS->os_top_object_start && new_core->sits == new_sits && TOPLEN (SOS) == (size_t) new_core->n_sits * sizeof (struct sit *)
+                       && TOPLEN (POS) == NNS * sizeof (int) && (char *) (new_core->parent_indexes + new_n_start_sits) == POS->os_top_object_start
+                       && new_sits[new_core->n_sits - 1] == sit && new_core->parent_indexes[new_core->n_sits - 1] == parent && n_parent_indexes == __CPROVER_old (n_parent_indexes) + 1))
+__CPROVER_ensures (gh_k < (size_t) __CPROVER_old (new_core->n_sits) * sizeof (struct sit *) ==> ((char *) new_sits)[gh_k] == gh_byte)
+__CPROVER_ensures (gh_k3 < ((size_t) __CPROVER_old (new_core->n_sits) - (size_t) new_n_start_sits) * sizeof (int) ==> POS->os_top_object_start[gh_k3] == gh_byte3)
+;
+void h_add_nonstart (void)
+{
+  struct sit *s; int n, ns, par;
+  HAVOC (gh_newlen); HAVOC (gh_k); HAVOC (gh_byte); HAVOC (gh_k3); HAVOC (gh_byte3); HAVOC (gh_wi); HAVOC (gh_word); HAVOC (gh_si); HAVOC (n_parent_indexes);
+  __CPROVER_assume (n_parent_indexes >= 0 && n_parent_indexes < 1000000);
+  new_core = malloc (sizeof (struct set_core)); __CPROVER_assume (new_core != NULL);
+  __CPROVER_assume (n >= 0 && n < NCAP && ns >= 0 && ns <= n); new_core->n_sits = new_core->n_all_dists = n; new_n_start_sits = ns; new_set_ready_p = 1;
+  mk_top (SOS, (size_t) n * sizeof (struct sit *)); new_sits = (struct sit **) SOS->os_top_object_start; new_core->sits = new_sits;
+  mk_top (POS, (size_t) (n - ns) * sizeof (int));
+  /* (the biased pointer of the data structure is formed here exactly as the code forms it; the check that reports F34 in the code is switched off for this one harness statement) */
+#pragma CPROVER check push
+#pragma CPROVER check disable "pointer-overflow"
+  new_core->parent_indexes = n == ns ? NULL : (int *) POS->os_top_object_start - ns;
+#pragma CPROVER check pop
+  if (gh_k < TOPLEN (SOS)) gh_byte = SOS->os_top_object_start[gh_k];
+  if (gh_k3 < TOPLEN (POS)) gh_byte3 = POS->os_top_object_start[gh_k3];
+  if (gh_wi < TOPLEN (SOS) / sizeof (struct sit *)) gh_word = ((struct sit **) SOS->os_top_object_start)[gh_wi];
+  set_add_new_nonstart_sit (s, par);
+  if (new_core->n_sits == n) VACUITY_CANARY_N ("pair already there"); else VACUITY_CANARY_N ("pair appended");
+}
